@@ -304,6 +304,190 @@ def replay(ctx, exe, recs):
     ctx.extra["relations_compared"] = ctx.extra.get("relations_compared", 0) + ncmp
 
 
+# ------------------------------------------------------------------------------------------------
+# mode H: site object histories (spec/multipole/SiteHist.tla)
+# ------------------------------------------------------------------------------------------------
+P_IDX, S1_IDX, S2_IDX = 100, 101, 102
+
+
+def _hcall_cmd(c):
+    x, op = c["x"], c["op"]
+    if op == "setMultipole":
+        m = c["m"]
+        Q = [float(m[0]), float(m[1]), float(m[2]), float(m[3]), float(m[4])] + [v / SQ3 for v in m[5:9]]
+        return "hcall %d setMultipole %d %s" % (x, c["r"], " ".join(repr(v) for v in Q))
+    if op == "setCharge":
+        return "hcall %d setCharge %r" % (x, float(c["q"]))
+    if op == "setPos":
+        return "hcall %d setPos %s" % (x, " ".join(repr(float(v)) for v in c["p"]))
+    if op == "translate":
+        return "hcall %d translate %s" % (x, " ".join(repr(float(v)) for v in c["p"]))
+    if op == "rotate":
+        g = " ".join(map(str, c["g"]))
+        if c["cm"] in ("own", "partner"):
+            return "hcall %d rotate %s %s" % (x, g, c["cm"])
+        return "hcall %d rotate %s value %s" % (x, g, " ".join(repr(float(v)) for v in c["c"]))
+    if op == "reset":
+        return "hcall %d reset" % x
+    src = {"S1": "site %d" % S1_IDX, "S2": "site %d" % S2_IDX, "partner": "obj %d" % (3 - x)}[c["src"]]
+    return "hcall %d %s %s %s" % (x, "sfield" if op == "staticField" else "ifield", "V" if c["m"] == "V" else "N", src)
+
+
+def call_name(c):
+    op = c["op"]
+    if op == "rotate":
+        return "Rotate(centre=%s)" % {"origin": "value", "point": "value", "own": "own-getPos-reference",
+                                      "partner": "partner-getPos-reference"}[c["cm"]]
+    if op in ("staticField", "inducedField"):
+        return "%s<%s>" % ("ApplyStaticField" if op == "staticField" else "ApplyInducedField", "V" if c["m"] == "V" else "noE_V")
+    return op
+
+
+def hist_commands(rec):
+    """-> commands, plan.  Persistent objects 1,2; after every call: hobs, then FRESH sites 11,12 in the
+    abstract state the spec gives, their energies, and one fresh source/target pair per accumulator contribution."""
+    cmds = ["clear", site_cmd(P_IDX, site_real(rec["probe"], 0)), site_cmd(S1_IDX, site_real(rec["S1"], 0)),
+            site_cmd(S2_IDX, site_real(rec["S2"], 0))]
+    plan = [("ok", None)] * 4
+    for n, st in enumerate(rec["steps"]):
+        c = st["call"]
+        if c["op"] == "construct":
+            for x, key in ((1, "s1"), (2, "s2")):
+                s = site_real(st[key]["site"], 0)
+                cmds.append(site_cmd(x, s).replace("site ", "hnew ", 1))
+                plan.append(("ok", None))
+        else:
+            cmds.append(_hcall_cmd(c))
+            plan.append(("call", n))
+        cmds.append("hobs %d" % P_IDX)
+        plan.append(("hobs", n))
+        f1, f2 = site_real(st["s1"]["site"], 0), site_real(st["s2"]["site"], 0)
+        cmds += [site_cmd(11, f1), site_cmd(12, f2)]
+        plan += [("ok", None)] * 2
+        for (a, b) in ((11, 12), (12, 11), (11, P_IDX), (P_IDX, 11), (12, P_IDX), (P_IDX, 12)):
+            cmds.append("obs 0.0 %d 1 %d 1 0" % (b, a))
+            plan.append(("fresh_e", n))
+        for x, key in ((1, "s1"), (2, "s2")):
+            for acc in ("V", "Vn"):
+                for con in st[key][acc]:
+                    kind, src, tgt = con[0], con[1:21], con[21:41]
+                    cmds += [site_cmd(21, site_real(src, 0)), site_cmd(22, site_real(tgt, 0))]
+                    plan += [("ok", None)] * 2
+                    cmds.append("obs 0.0 22 1 21 3 %s" % ("1 2 3" if kind == 0 else "19 20 21"))
+                    plan.append(("fresh_v", (n, x, acc)))
+    return cmds, plan
+
+
+def hist_check(ctx, rec, out, plan):
+    steps = rec["steps"]
+    hobs = {}
+    fresh_e = {}
+    fresh_v = {}
+    for (what, arg), lines in zip(plan, out):
+        first = lines[0] if lines else "(no output)"
+        if first.startswith("exc"):
+            nm = call_name(steps[arg]["call"]) if what == "call" else what
+            ctx.violation("history:exception:%s" % nm, "history %s: driver command threw: %s" % (
+                [call_name(s["call"]) for s in steps], first), rec)
+            return 0
+        if what == "hobs":
+            o = {}
+            for ln in lines:
+                p = ln.split()
+                if p[0] == "o":
+                    o[int(p[1])] = [float(v) for v in p[2:]]
+                elif p[0] == "e":
+                    o["e"] = [float(v) for v in p[1:]]
+            hobs[arg] = o
+        elif what == "fresh_e":
+            fresh_e.setdefault(arg, []).append(float(first.split()[2]))
+        elif what == "fresh_v":
+            p = first.split()
+            fresh_v.setdefault(arg, []).append([float(p[2]), float(p[4]), float(p[6])])
+    ncmp = 0
+    probe = site_real(rec["probe"], 0)
+    for n, st in enumerate(steps):
+        c = st["call"]
+        name = call_name(c)
+        hist = " ; ".join("X%d.%s" % (s["call"]["x"], call_name(s["call"])) for s in steps[:n + 1])
+        ab = {1: site_real(st["s1"]["site"], 0), 2: site_real(st["s2"]["site"], 0)}
+        # (a) exact observables of both objects
+        for x in (1, 2):
+            got = hobs[n][x]
+            exp = ab[x]
+            who = "called" if c["x"] == x else ("other" if c["x"] else "constructed")
+            scale = max(1.0, max(abs(v) for v in exp["Q"]))
+            bad = None
+            if any(abs(got[k] - exp["p"][k]) > 1e-12 * max(1.0, abs(exp["p"][k])) for k in range(3)):
+                bad = "getPos"
+            elif int(got[3]) != exp["r"]:
+                bad = "getRank"
+            elif any(abs(got[4 + k] - exp["Q"][k]) > REL * scale for k in range(9)):
+                bad = "Q"
+            elif any(abs(got[13 + k] - exp["Q"][1 + k]) > REL * scale for k in range(3)):
+                bad = "getDipole"
+            ncmp += 1
+            if bad:
+                ctx.violation("history:%s:%s:%s-object:r%d" % (name, bad, who, exp["r"]),
+                              "after the history [%s] object X%d (%s) has pos %s rank %d Q %s getDipole %s; the abstract state is "
+                              "pos %s rank %d Q %s" % (hist, x, "PolarSite" if exp["k"] else "StaticSite", got[0:3], int(got[3]),
+                                                       got[4:13], got[13:16], exp["p"], exp["r"], exp["Q"]), rec)
+        # (b) energies of the long-lived objects = energies of fresh sites in the abstract state
+        names = ("E(X1,X2)", "E(X2,X1)", "E(X1,P)", "E(P,X1)", "E(X2,P)", "E(P,X2)")
+        pairs = ((ab[1], ab[2]), (ab[2], ab[1]), (ab[1], probe), (probe, ab[1]), (ab[2], probe), (probe, ab[2]))
+        for k in range(6):
+            got, fr = hobs[n]["e"][k], fresh_e[n][k]
+            S, T = pairs[k]
+            R = math.sqrt(sum((S["p"][j] - T["p"][j]) ** 2 for j in range(3)))
+            # the object may carry stale moments: bound with the larger of the two descriptions is not available,
+            # so use a generous constant on top of the abstract norms
+            mag = 200.0 * sum(R ** -m for m in range(1, 6)) * max(1.0, _norm(S)) * max(1.0, _norm(T))
+            ncmp += 1
+            if not abs(got - fr) <= REL * mag:
+                ctx.violation("history:%s:energy:%s" % (name, names[k]),
+                              "after the history [%s] %s of the long-lived objects is %r, of fresh sites in the abstract state %r "
+                              "(X1: pos %s rank %d Q %s; X2: pos %s rank %d Q %s)" % (
+                                  hist, names[k], got, fr, ab[1]["p"], ab[1]["r"], ab[1]["Q"], ab[2]["p"], ab[2]["r"], ab[2]["Q"]), rec)
+        # (c) accumulators = sum of the listed contributions, each evaluated on a fresh pair
+        for x, key in ((1, "s1"), (2, "s2")):
+            if not ab[x]["k"]:
+                continue
+            for acc, off in (("V", 16), ("Vn", 19)):
+                cons = fresh_v.get((n, x, acc), [])
+                exp = [sum(v[k] for v in cons) for k in range(3)]
+                mag = sum(abs(v[k]) for v in cons for k in range(3)) + 1e-3
+                got = hobs[n][x][off:off + 3]
+                ncmp += 1
+                if any(abs(got[k] - exp[k]) > 1e-11 * mag for k in range(3)):
+                    ctx.violation("history:%s:accumulator:%s:%d-contributions" % (name, "V" if acc == "V" else "V_noE", len(cons)),
+                                  "after the history [%s] %s of X%d is %s; the %d contribution(s) since the last Reset, each "
+                                  "evaluated on a fresh source/target pair, sum to %s" % (
+                                      hist, "V()" if acc == "V" else "V_noE()", x, got, len(cons), exp), rec)
+    return ncmp
+
+
+def replay_hist(ctx, exe, recs):
+    items = []
+    plans = []
+    for i, rec in enumerate(recs):
+        cmds, plan = hist_commands(rec)
+        items.append((i, cmds))
+        plans.append(plan)
+    results, crashes = vlib.run_items(exe, items, env={"OMP_NUM_THREADS": "1"})
+    n = 0
+    for i, rec in enumerate(recs):
+        ctx.traces += 1
+        ctx.nontriv(("history", json.dumps([s["call"] for s in rec["steps"]]), json.dumps(rec["steps"][0]["s1"]["site"][:6])))
+        if i in crashes:
+            ctx.violation("driver:crash:history", "driver died: %s" % crashes[i], rec)
+            continue
+        k = hist_check(ctx, rec, results[i], plans[i])
+        ctx.count(k)
+        n += k
+    ctx.extra["history_observations_compared"] = ctx.extra.get("history_observations_compared", 0) + n
+    ctx.extra["histories_replayed"] = ctx.extra.get("histories_replayed", 0) + len(recs)
+
+
 def _tlc(ctx, module, what, emit=True, timeout=1500, env=None):
     res = vlib.tlc("multipole", module, cfg=module + ".cfg", workers=WORKERS, timeout=timeout, heap="4g", env=env)
     vlib.tlc_must_hold(res, what)
@@ -333,7 +517,10 @@ def run(ctx):
 
     if getattr(ctx, "replay", None):
         rec = json.load(open(ctx.replay))["replay"]
-        replay(ctx, exe, [rec])
+        if rec.get("fam") == "history":
+            replay_hist(ctx, exe, [rec])
+        else:
+            replay(ctx, exe, [rec])
         return
 
     _tlc(ctx, "MCGroup" + tier, "group of the cube, action on vectors and on the spherical quadrupole components", emit=False)
@@ -356,4 +543,14 @@ def run(ctx):
             replay(ctx, exe, recs[k:k + step])
         del recs
     ctx.extra["vectors_per_family"] = fams
+
+    # mode H: histories of long-lived site objects
+    hrecs = _tlc(ctx, "MCHist" + tier, "SiteHist: common rotation about any centre keeps distance and energy orders; Reset; setMultipole",
+                 emit=False)
+    ctx.sample({"history": [s["call"] for s in hrecs[len(hrecs) // 2]["steps"]],
+                "abstract_state_after_last_call": hrecs[len(hrecs) // 2]["steps"][-1]["s2"]})
+    step = 2000
+    for k in range(0, len(hrecs), step):
+        replay_hist(ctx, exe, hrecs[k:k + step])
+    del hrecs
     ctx.exhaustive = False
